@@ -444,6 +444,25 @@ def run(ctx):
         for kind, what in failures:
             c.fail(o2 if kind.startswith("zigzag") else o1, "crates/serialize/src/postcard.rs (const-evaluated)", what)
     ctx.run_clause("C12.g", varint_witness)
+
+    def derive_shapes(c):
+        """The derive macros on /verif's own fixture universe (engine/fixtures/derive_shapes.rs): tuple / named structs and
+        enum variants with #[serialize(skip)] in first, middle and last position, generic and concrete.  The generated
+        impls are type-checked under the E1 driver and analysed like the hand-written ones; nothing is run."""
+        if c.key_prefix:
+            return
+        from ..facts import Program
+        fx = Program([extract.facts_for("main"), extract.facts_for_fixture("derivefix")])
+        e, d = c12a(c, [fx], "derive-shapes")
+        o = c.ob("C12.h", "derive-shapes/present", "K3", "the fixture universe of derive shapes is analysed")
+        mine = [x for x in d.impls if x["body"].crate == "qbv_fixture_derivefix"]
+        o.sites = len(mine)
+        if len(mine) < 16:
+            c.fail(o, "(program)", "expected >= 16 derived Decode impls of the fixture universe, found %d" % len(mine))
+        c12e(c, e, d, "derive-shapes")
+    ctx.alias = {"C12.a": "C12.h", "C12.e": "C12.h"}
+    ctx.run_clause("C12.h", derive_shapes)
+    ctx.alias = {}
     if ctx.tier == "thorough":
         rocks = ctx.program("rocks")
         ctx.run_clause("C12.a", lambda c: c12a(c, [rocks], "workspace"))
